@@ -117,7 +117,8 @@ def bound_opens(iface, shuffle, T, k, eps):
         return need + (T if shuffle else 0) + 1
     if iface in ("tf", "tf_norepeat"):
         # tf.data drives the concurrent generator and may prefetch a few examples (prefetch=1, tf's own shuffle buffer of `shuffle` examples)
-        T = T or 1
+        import os
+        T = T or (os.cpu_count() or 1)          # file_parallelism=None: the pool takes one worker per core
         return math.ceil((k + 2 + shuffle) / eps) + (3 * T + 3 if shuffle else T) + 4
     return None
 
@@ -145,6 +146,96 @@ def rust_readahead(ctx):
         ctx.report({"kind": "rust-read-ahead", "iface": "rust", "what": "next-after-drop"},
                    f"parallel_map keeps calling next() while it is being dropped (n={late[0]['n']}, threads={late[0]['threads']}, k={late[0]['k']})", {"case": {k: late[0][k] for k in ("n", "threads", "k")}})
     return n
+
+
+def value_kinds(ctx):
+    """The bounds do not depend on *what* flows through the stages: streams of None / falsy / unhashable / array elements
+    (a `process_record` used for its side effect returns None; 0, "", [] and empty arrays are ordinary examples)."""
+    sp.sedpack()
+    import numpy as np
+    from sedpack.io.itertools import shuffle_buffer, round_robin, LazyPool
+    kinds = {"None": [None], "falsy": [0, False, "", (), 0.0], "lists": [[], [1], {}], "arrays": [np.zeros(0), np.zeros(3), np.array(None, dtype=object)],
+             "nan": [float("nan")], "mixed": [None, 1, None, "x", [], None]}
+    n = 0
+    for name, vals in kinds.items():
+        for b in (1, 4, 16):
+            for take in (1, 7):
+                # ---- shuffle_buffer on an endless stream
+                pulled = {"n": 0}
+                def src():
+                    for i in itertools.count():
+                        pulled["n"] += 1
+                        if pulled["n"] > 400: raise RuntimeError("pull-limit")
+                        yield vals[i % len(vals)]
+                got, err = 0, None
+                try:
+                    for y in shuffle_buffer(src(), buffer_size=b):
+                        got += 1
+                        if got >= take: break
+                except Exception as e:  # noqa: BLE001
+                    err = f"{type(e).__name__}: {e}"
+                n += 1
+                if err or pulled["n"] > take + b + 1:
+                    ctx.report({"kind": "readahead", "stage": "shuffle_buffer", "values": name},
+                               f"shuffle_buffer(b={b}) over a stream of {name} elements pulled {pulled['n']} elements for {got} yielded ({err or 'bound ' + str(take + b + 1)})",
+                               {"values": name, "b": b, "take": take, "pulled": pulled["n"], "yielded": got})
+                # ---- a finite stream comes out whole
+                m = 2 * b + 3
+                out = list(shuffle_buffer((vals[i % len(vals)] for i in range(m)), buffer_size=b))
+                n += 1
+                if len(out) != m:
+                    ctx.report({"kind": "stage-loses-elements", "stage": "shuffle_buffer", "values": name},
+                               f"shuffle_buffer(b={b}) over {m} {name} elements yielded {len(out)}", {"values": name, "b": b, "n": m, "yielded": len(out)})
+                # ---- round_robin over endless inner streams of such values
+                opened = {"n": 0}
+                def inner(j):
+                    for i in itertools.count(): yield vals[(i + j) % len(vals)]
+                def outer():
+                    for j in itertools.count():
+                        opened["n"] += 1
+                        if opened["n"] > 400: raise RuntimeError("pull-limit")
+                        yield inner(j)
+                got, err = 0, None
+                try:
+                    for y in round_robin(outer(), buffer_size=b):
+                        got += 1
+                        if got >= take: break
+                except Exception as e:  # noqa: BLE001
+                    err = f"{type(e).__name__}: {e}"
+                n += 1
+                if err or opened["n"] > b + 1:
+                    ctx.report({"kind": "readahead", "stage": "round_robin", "values": name},
+                               f"round_robin(b={b}) over inner streams of {name} elements opened {opened['n']} inner iterators for {got} yielded ({err or 'bound ' + str(b + 1)})",
+                               {"values": name, "b": b, "take": take, "opened": opened["n"], "yielded": got})
+        # ---- LazyPool whose mapped function returns such values
+        for T in (1, 3):
+            pulled = {"n": 0}
+            def src2():
+                for i in itertools.count():
+                    pulled["n"] += 1
+                    if pulled["n"] > 400: raise RuntimeError("pull-limit")
+                    yield i
+            got, err = 0, None
+            try:
+                with LazyPool(T) as pool:
+                    for y in pool.imap_unordered(lambda i: vals[i % len(vals)], src2()):
+                        got += 1
+                        if got >= 5: break
+            except Exception as e:  # noqa: BLE001
+                err = f"{type(e).__name__}: {e}"
+            n += 1
+            if err or pulled["n"] > 5 + 3 * T + 3:
+                ctx.report({"kind": "readahead", "stage": "lazy_pool", "values": name},
+                           f"LazyPool({T}) mapping to {name} results pulled {pulled['n']} inputs for {got} results ({err or 'bound'})", {"values": name, "T": T, "pulled": pulled["n"]})
+    return n
+
+
+def value_kinds_child(_args):
+    class Rec:
+        def __init__(self): self.violations = []
+        def report(self, sig, what, replay): self.violations.append((sig, what, json.loads(json.dumps(replay, default=str))))
+    r = Rec()
+    return {"n": value_kinds(r), "violations": r.violations}
 
 
 def run(ctx):
@@ -239,10 +330,15 @@ def run(ctx):
                            {"case": r["case"], "run": x})
             grp[(x["iface"], x["shuffle"], x["T"])].append(x["opens"])
         for key, v in grp.items():
-            tol = 1 if not key[0].startswith("tf") else (key[2] or 1) + 2      # tf.data prefetches in its own threads: timing-dependent by a few shards
+            import os
+            tol = 1 if not key[0].startswith("tf") else (key[2] or (os.cpu_count() or 1)) + 2      # tf.data prefetches in its own threads: timing-dependent by a few shards (None = one worker per core)
             if max(v) - min(v) > tol and key[1] == 0:
                 ctx.report({"kind": "opens-depend-on-size", "iface": key[0]}, f"{key}: shard opens vary with the dataset size: {v}", {"case": r["case"]})
     nrust = rust_readahead(ctx)
+    nvk = child.call("harness.checks.c14", "value_kinds_child", [], timeout=300)
+    for v in nvk["violations"]:
+        ctx.report(v[0], v[1], v[2])
+    ctx.cov["value_kind_runs"] = nvk["n"]
     ctx.cov["rust_drop_cases"] = nrust
     if corr_bad and not ctx.violations and not ctx.known_hits:
         ctx.report({"kind": "correspondence"}, "read-ahead measured on the real generator differs from the monitor's",
@@ -253,7 +349,7 @@ def run(ctx):
         "traces_validated_against_impl": len(obs) - len(corr_bad),
         "rule": "shuffle_buffer / round_robin on counting sources: b in {1,2,3,7}, lengths around b, infinite sources with take in {1,b,2b+1}; "
                 "LazyPool(T) for T in {1,2,4} on inputs of length 60, 600 and infinite; end to end: shard files opened for 7 examples of a "
-                "repeating stream over datasets of 12/40(/160) shards through sync/concurrent/async, shuffled and not; Rust: items parallel_map pulls from its input "
+                "streams of None / falsy / unhashable / array elements through the three stages (bounds and completeness do not depend on the kind of value); repeating stream over datasets of 12/40(/160) shards through sync/concurrent/async, shuffled and not; Rust: items parallel_map pulls from its input "
                 "for k results and by the time it is dropped (cargo harness, 1..9 threads, n up to 13), and no next() after drop in the recorded channel operations",
         "samples": [{"stage": k, "b": b, "n": n, "take": t, "trace": lg[:16]} for k, b, n, t, lg, _ in obs[8:10]] + pres[:2],
         "input_distribution": {"stage_traces": len(obs), "pool_runs": len(pres), "e2e_runs": nrun,
